@@ -29,10 +29,12 @@ const (
 	EvRange // taking (Taken) or leaving (!Taken) a range loop
 	EvSelect
 	EvTypeCase
+	EvInlReturn // the return of an inlined callee (not a return of the analysed function)
+	EvInlEnd    // end of the events of an inlined callee
 )
 
 func (k EvKind) String() string {
-	return [...]string{"call", "assign", "branch", "send", "recv", "return", "defer", "go", "range", "select", "typecase"}[k]
+	return [...]string{"call", "assign", "branch", "send", "recv", "return", "defer", "go", "range", "select", "typecase", "inl-return", "inl-end"}[k]
 }
 
 // Event is one observable step on a path through a function.
@@ -55,6 +57,11 @@ type Event struct {
 	Deferred bool // executed by a deferred function at exit
 	Maybe    bool // (deferred only) not on every path of the deferred closure
 	Block    int32
+
+	Depth   int        // > 0: the event happens inside a callee whose body was inlined at this point of the path
+	Inlined bool       // EvCall: the events of the callee follow (up to the matching EvInlEnd)
+	Vals    []ast.Expr // EvAssign/EvReturn consuming an inlined call: what the callee returned on this path
+	CondVal ast.Expr   // EvBranch whose condition contains inlined calls: the condition with their results put in
 }
 
 type ExitKind int
@@ -83,6 +90,10 @@ type Flow struct {
 
 	comm    map[ast.Node]bool       // comm statements of select clauses (evaluated at the case, not before)
 	caseTag map[ast.Expr]*ast.SwitchStmt
+	inl      map[*ast.CallExpr]*inlined // prepared callee copies per call site (nil = not inlinable)
+	inlStack []*Func                    // callees being inlined around this flow
+	self     *Func                      // the declared function the root flow belongs to
+	noInline bool
 	paths   []Path
 	truncated []Path
 	over    bool
@@ -106,7 +117,9 @@ func (f *Flow) maxVisits() int {
 
 // FlowOf returns the (memoised) flow of a declared function.
 func (p *Prog) FlowOf(f *Func) *Flow {
-	return p.flowOf(f.Decl, f.Decl.Body, f.Pkg, f.Key)
+	fl := p.flowOf(f.Decl, f.Decl.Body, f.Pkg, f.Key)
+	fl.self = f
+	return fl
 }
 
 // FlowOfLit returns the flow of a function literal.
@@ -115,7 +128,9 @@ func (p *Prog) FlowOfLit(fl *ast.FuncLit) *Flow {
 	if enc == nil {
 		return nil
 	}
-	return p.flowOf(fl, fl.Body, enc.Pkg, fmt.Sprintf("%s$lit@%d", enc.Key, p.Fset.Position(fl.Pos()).Line))
+	f := p.flowOf(fl, fl.Body, enc.Pkg, fmt.Sprintf("%s$lit@%d", enc.Key, p.Fset.Position(fl.Pos()).Line))
+	f.self = enc
+	return f
 }
 
 func (p *Prog) flowOf(node ast.Node, body *ast.BlockStmt, pkg *packages.Package, name string) *Flow {
@@ -123,7 +138,15 @@ func (p *Prog) flowOf(node ast.Node, body *ast.BlockStmt, pkg *packages.Package,
 		return f
 	}
 	f := &Flow{P: p, Pkg: pkg, Info: pkg.TypesInfo, Node: node, Body: body, Name: name,
-		comm: map[ast.Node]bool{}, caseTag: map[ast.Expr]*ast.SwitchStmt{}}
+		comm: map[ast.Node]bool{}, caseTag: map[ast.Expr]*ast.SwitchStmt{}, inl: map[*ast.CallExpr]*inlined{}}
+	f.prepare()
+	p.flows[node] = f
+	return f
+}
+
+// prepare indexes the select/switch clauses of the body and builds its CFG.
+func (f *Flow) prepare() {
+	node, body, pkg := f.Node, f.Body, f.Pkg
 	ast.Inspect(body, func(n ast.Node) bool {
 		switch s := n.(type) {
 		case *ast.FuncLit:
@@ -147,8 +170,6 @@ func (p *Prog) flowOf(node ast.Node, body *ast.BlockStmt, pkg *packages.Package,
 		return true
 	})
 	f.CFG = cfg.New(body, func(call *ast.CallExpr) bool { return !NoReturnCall(pkg.TypesInfo, call) })
-	p.flows[node] = f
-	return f
 }
 
 // NoReturnCall reports whether call never returns (panic, os.Exit, log.Fatal*).
@@ -293,47 +314,31 @@ func (f *Flow) Paths() (paths []Path, ok bool) {
 		return f.paths, !f.over
 	}
 	f.done = true
+	f.enumerate()
+	if f.over && !f.noInline && len(f.inl) > 0 {
+		// too many paths with callee bodies spliced in: fall back to opaque calls
+		f.noInline = true
+		f.paths, f.truncated, f.over, f.pruned = nil, nil, false, 0
+		f.enumerate()
+	}
+	return f.paths, !f.over
+}
+
+func (f *Flow) enumerate() {
 	if len(f.CFG.Blocks) == 0 {
-		return nil, true
+		return
 	}
 	visits := make([]int, len(f.CFG.Blocks))
 	savedVolatile := volatile
 	volatile = computeVolatile(f.Info, f.Body)
 	defer func() { volatile = savedVolatile }()
 	var cur []Event
+	// results of the inlined calls on the current path prefix
+	inlRes := map[*ast.CallExpr][]ast.Expr{}
 	var rec func(b *cfg.Block, pre []Event, fa facts)
-	rec = func(b *cfg.Block, pre []Event, fa facts) {
-		if f.over {
-			return
-		}
-		if visits[b.Index] >= f.maxVisits() {
-			// the path is cut here: keep the prefix (a feasible prefix of real paths) for rules
-			// that look for a bad sequence of events rather than for a property of complete paths
-			if len(f.truncated) < PathLimit {
-				t := Path{Exit: ExitTruncated, Ev: make([]Event, len(cur)+len(pre))}
-				copy(t.Ev, cur)
-				copy(t.Ev[len(cur):], pre)
-				f.truncated = append(f.truncated, t)
-			}
-			return
-		}
-		mark := len(cur)
-		cur = append(cur, pre...)
-		for _, e := range pre {
-			if !fa.apply(f.Info, e) {
-				cur = cur[:mark]
-				f.pruned++
-				return
-			}
-		}
-		visits[b.Index]++
-		for _, n := range b.Nodes {
-			evs := f.nodeEvents(n, b.Index)
-			cur = append(cur, evs...)
-			for _, e := range evs {
-				fa.apply(f.Info, e)
-			}
-		}
+	var walkNodes func(b *cfg.Block, ni int, fa facts)
+	var walkEvents func(b *cfg.Block, ni int, evs []Event, ei int, fa facts)
+	finish := func(b *cfg.Block, fa facts) {
 		switch len(b.Succs) {
 		case 0:
 			p := Path{Exit: ExitReturn}
@@ -377,6 +382,9 @@ func (f *Flow) Paths() (paths []Path, ok bool) {
 							ev.Tag = sw.Tag
 							ev.Clause = sw
 						}
+						if cv := f.withResults(cond, inlRes); cv != cond {
+							ev.CondVal = cv
+						}
 					}
 				}
 				rec(s, append([]Event{ev}, extra...), fa.clone())
@@ -386,12 +394,180 @@ func (f *Flow) Paths() (paths []Path, ok bool) {
 				rec(s, nil, fa.clone())
 			}
 		}
+	}
+	walkNodes = func(b *cfg.Block, ni int, fa facts) {
+		if f.over {
+			return
+		}
+		if ni >= len(b.Nodes) {
+			finish(b, fa)
+			return
+		}
+		walkEvents(b, ni, f.nodeEvents(b.Nodes[ni], b.Index), 0, fa)
+	}
+	walkEvents = func(b *cfg.Block, ni int, evs []Event, ei int, fa facts) {
+		mark := len(cur)
+		defer func() { cur = cur[:mark] }()
+		for ; ei < len(evs); ei++ {
+			e := evs[ei]
+			if e.Kind == EvCall && !f.noInline {
+				if in := f.inlineOf(e); in != nil {
+					e.Inlined = true
+					base := len(cur)
+					cpaths, _ := in.flow.Paths()
+					for pi := range cpaths {
+						cp := &cpaths[pi]
+						cur = append(cur[:base], e)
+						fa2 := fa.clone()
+						fa2.apply(f.Info, e)
+						feasible := true
+						for _, be := range in.binds {
+							be.Depth = 1
+							cur = append(cur, be)
+							fa2.apply(f.Info, be)
+						}
+						for _, ce := range cp.Ev {
+							ce.Depth++
+							if ce.Kind == EvReturn {
+								ce.Kind = EvInlReturn
+							}
+							cur = append(cur, ce)
+							if !fa2.apply(f.Info, ce) && (ce.Kind == EvBranch || ce.Kind == EvRange) {
+								feasible = false
+								break
+							}
+						}
+						if !feasible {
+							f.pruned++
+							continue
+						}
+						if cp.Exit == ExitNoReturn {
+							p := Path{Exit: ExitNoReturn, Ev: f.withDeferred(cur, ExitNoReturn)}
+							f.paths = append(f.paths, p)
+							if len(f.paths) > PathLimit {
+								f.over = true
+								return
+							}
+							continue
+						}
+						cur = append(cur, Event{Kind: EvInlEnd, Pos: e.Pos, Node: e.Node, Call: e.Call, Callee: e.Callee, Block: e.Block, Depth: 1})
+						saved, had := inlRes[e.Call]
+						inlRes[e.Call] = in.retVals(cp)
+						walkEvents(b, ni, evs, ei+1, fa2)
+						if had {
+							inlRes[e.Call] = saved
+						} else {
+							delete(inlRes, e.Call)
+						}
+						if f.over {
+							return
+						}
+					}
+					return
+				}
+			}
+			// an assignment or return that consumes an inlined call carries what the callee returned
+			switch e.Kind {
+			case EvAssign, EvReturn:
+				if len(e.Rhs) == 1 {
+					if c, ok := ast.Unparen(e.Rhs[0]).(*ast.CallExpr); ok {
+						if vals, ok := inlRes[c]; ok && len(vals) > 0 {
+							e.Vals = vals
+						}
+					}
+				}
+				if e.Vals == nil && len(e.Rhs) > 0 && len(inlRes) > 0 {
+					var vals []ast.Expr
+					changed := false
+					for _, r := range e.Rhs {
+						nr := f.withResults(r, inlRes)
+						if nr != r {
+							changed = true
+						}
+						vals = append(vals, nr)
+					}
+					if changed {
+						e.Vals = vals
+					}
+				}
+			}
+			cur = append(cur, e)
+			fa.apply(f.Info, e)
+			if e.Vals != nil && e.Kind == EvAssign && len(e.Vals) == len(e.Lhs) {
+				fa.apply(f.Info, Event{Kind: EvAssign, Lhs: e.Lhs, Rhs: e.Vals, Tok: token.ASSIGN})
+			}
+		}
+		walkNodes(b, ni+1, fa)
+	}
+	rec = func(b *cfg.Block, pre []Event, fa facts) {
+		if f.over {
+			return
+		}
+		if visits[b.Index] >= f.maxVisits() {
+			// the path is cut here: keep the prefix (a feasible prefix of real paths) for rules
+			// that look for a bad sequence of events rather than for a property of complete paths
+			if len(f.truncated) < PathLimit {
+				t := Path{Exit: ExitTruncated, Ev: make([]Event, len(cur)+len(pre))}
+				copy(t.Ev, cur)
+				copy(t.Ev[len(cur):], pre)
+				f.truncated = append(f.truncated, t)
+			}
+			return
+		}
+		mark := len(cur)
+		cur = append(cur, pre...)
+		for _, e := range pre {
+			if !fa.apply(f.Info, e) {
+				cur = cur[:mark]
+				f.pruned++
+				return
+			}
+		}
+		visits[b.Index]++
+		walkNodes(b, 0, fa)
 		cur = cur[:mark]
 		visits[b.Index]--
 	}
 	rec(f.CFG.Blocks[0], nil, facts{})
-	return f.paths, !f.over
 }
+
+// withResults replaces, in e, the inlined calls with a single result by what they returned on this path.
+func (f *Flow) withResults(e ast.Expr, res map[*ast.CallExpr][]ast.Expr) ast.Expr {
+	if len(res) == 0 || e == nil {
+		return e
+	}
+	repl := map[ast.Expr]ast.Expr{}
+	ast.Inspect(e, func(n ast.Node) bool {
+		if _, isLit := n.(*ast.FuncLit); isLit {
+			return false
+		}
+		if c, ok := n.(*ast.CallExpr); ok {
+			if vals, ok := res[c]; ok && len(vals) == 1 {
+				v := vals[0]
+				if needsParen(v) {
+					pe := &ast.ParenExpr{Lparen: v.Pos(), X: v, Rparen: v.End()}
+					if tv, ok := f.Info.Types[v]; ok {
+						f.Info.Types[pe] = tv
+					}
+					v = pe
+				}
+				repl[c] = v
+				return false
+			}
+		}
+		return true
+	})
+	if len(repl) == 0 {
+		return e
+	}
+	cl := &cloner{info: f.Info, repl: repl}
+	out := cl.Expr(e)
+	condOrigin[out] = e
+	return out
+}
+
+// condOrigin maps a condition in which inlined calls were replaced by their results to the condition as written.
+var condOrigin = map[ast.Expr]ast.Expr{}
 
 func isTypeSwitchClause(f *Flow, body *cfg.Block) bool {
 	cc, ok := body.Stmt.(*ast.CaseClause)
